@@ -17,6 +17,7 @@ import Rl.Lemmas.EditorFrame
 import Rl.Lemmas.EditorRing
 import Rl.Lemmas.EditorPop
 import Rl.Lemmas.EditorPopLocal
+import Rl.Lemmas.EditorKillReports
 open Rl
 
 /-- A successful read of one byte consumes exactly one byte of the input (buffer, kernel queue or
@@ -326,12 +327,10 @@ theorem C17_nextCmd_keeps_wf (S : Segmenter) (U : UData) (cfg : EdCfg) (fuel : N
       `popLocal_yank`, `popLocal_pop` — after `Yank` / `YankPop` exactly the bytes the ring recorded stand
       before the cursor — and `popLocal_kill`: no kill sets the last action to Yank
       (`lbKill_go_lastAction`), a kill that answers `false` leaves line and cursor alone
-      (`faithful_kill`)), up to ONE fact about `LineBuffer::kill` alone, the field `killReports`
-      (`KillReports`): for a movement other than the two character movements the answer `true` comes with
-      notifications bracketed by `start_killing` / `stop_killing` among which there is a deletion the
-      ring takes up (forward, backward, or around the cursor with some text); the ring-level half —
-      such a stream leaves the last action = Kill — is proved (`lbKill_go_bracket`,
-      `killTrueKills_of_reports`).
+      (`faithful_kill`), one that answers `true` comes — for each of the 12 movements other than the two
+      character movements — with notifications bracketed by `start_killing` / `stop_killing` among which
+      there is a deletion the ring takes up (`killReports`, round 12), and such a stream leaves the last
+      action = Kill (`lbKill_go_bracket`)).  Nothing about `YankPop` is left in this structure.
     (`next_cmd` is discharged: `C17_next_cmd`, `C17_next_cmd_returns`.) -/
 structure C17_Open (S : Segmenter) (U : UData) (cfg : EdCfg) (J : Ed → Prop) : Prop where
   undo : ∀ n s, RdInv cfg s → J s →
@@ -346,7 +345,6 @@ structure C17_Open (S : Segmenter) (U : UData) (cfg : EdCfg) (J : Ed → Prop) :
   susp : ∀ s, J s → J { s with suspends := s.suspends + 1 }
   nextChar : KeepsJ J nextChar
   insert : ∀ c, KeepsJ J (editInsert S U cfg c 1)
-  killReports : KillReports S U
 
 /-- every `execute` step on a command that `next_cmd` can return (`CmdI`) is safe from the read
     invariant, the cross-step invariant `J` and `PopPre`, and re-establishes `RdInv`, `J` and `PopOK`
@@ -374,7 +372,7 @@ theorem C17_exec_safe (S : Segmenter) (U : UData) (cfg : EdCfg) (hS : S.Stable) 
   refine ⟨?_, ho.init, ho.initText, ho.refresh, ho.next, ho.reset, ho.pre, ho.susp, ho.nextChar, ho.insert⟩
   intro cmd s hci h hj hp
   have hloc : cfg.vi = false → PopLocal S U cfg := fun hvi =>
-    ⟨popLocal_kill S U cfg (killTrueKills_of_reports S U ho.killReports) hvi, popLocal_yank S U cfg hvi, popLocal_pop S U cfg⟩
+    ⟨popLocal_kill S U cfg (killTrueKills_of_reports S U (killReports S U)) hvi, popLocal_yank S U cfg hvi, popLocal_pop S U cfg⟩
   have hpop := popI_execute S U cfg hloc cmd s hci h hp
   by_cases hc : C17_covered cmd = true
   · have hu : IsUndo cmd = false := by
